@@ -31,7 +31,7 @@ CHECKS['C02'] = dict(
     units=[
         U('inpkg', 'TestVerifC02_Regress', q(), q(), pkg='algo'),
         U('inpkg', 'TestVerifC02_Witness', q(160000, 16), q(3200000, 16, cap=1500), pkg='algo'),
-        U('inpkg', 'TestVerifC02_Long', q(320, 16), q(6400, 16, cap=1500), pkg='algo'),
+        U('inpkg', 'TestVerifC02_Long', q(3200, 16), q(32000, 16, cap=1500), pkg='algo'),
         U('inpkg', 'FuzzVerifC02_Witness', None, q(fuzz=120), pkg='algo'),
     ])
 
@@ -66,6 +66,7 @@ CHECKS['C05'] = dict(
         U('inpkg', 'TestVerifC05_SlabSequence', q(16000, 8), q(320000, 16, cap=1800), pkg='algo'),
         U('inpkg', 'TestVerifC05_SchemeHistory', q(8000, 4), q(160000, 8), pkg='algo'),
         U('inpkg', 'TestVerifC05_ItemCaches', q(32000, 16), q(640000, 16, cap=1500), pkg='src'),
+        U('inpkg', 'TestVerifC05_ChunkCacheHistory', q(3200, 16), q(64000, 16, cap=1500), pkg='src'),
     ])
 
 CHECKS['C01'] = dict(
@@ -81,6 +82,7 @@ CHECKS['C01'] = dict(
     units=[
         U('lib', 'TestVerifC01_Regress', q(), q()),
         U('lib', 'TestVerifC01_LibFilter', q(48000, 16), q(960000, 16, cap=1800)),
+        U('inpkg', 'TestVerifC01_QuerySequences', q(16000, 16), q(320000, 16, cap=1500), pkg='src'),
     ])
 
 CHECKS['C04'] = dict(
@@ -159,7 +161,7 @@ CHECKS['C11'] = dict(
     title='--ansi strips escape sequences only and colours the right characters',
     rule='(i) arbitrary bytes biased to ESC [ ] ( ) \\\\ ; : ? digits m K BEL BS SO SI LF, multi-byte and invalid UTF-8, and fragment sequences with the edge characters of every class of the specification (0x1f 0x20 0x7e 0x7f 0x80, @ ` { /): stripped text == specification regex, spans well-formed; '
          '(ii) grammar: text chunks interleaved with well-formed SGR (16/256/24-bit colours, attributes, resets, several parameters), OSC-8 open/close (ST and BEL, URIs over all printable ASCII), other OSC sequences with printable payloads, other CSI/ESC/charset sequences, SO/SI, struck-out characters, '
-         '1-3 consecutive lines carrying the state over: per-character (fg,bg,attr,url) == SGR interpreter. non-trivial = >=2 sequences and a text chunk after a sequence',
+         '1-3 consecutive lines carrying the state over: per-character (fg,bg,attr,url) == SGR interpreter; (iii) process level: 2-6 lines of words and basic foreground colours / resets, some lines of sequences only, fed to fzf --ansi in tmux; the foreground colour of every displayed character (capture-pane -e) equals the colour in force in the input, carried across lines. non-trivial = >=2 sequences and a text chunk after a sequence',
     assumptions=['the stripping specification is the regular expression quoted in src/ansi.go plus the hyperlink terminator ESC]8;;ESC emitted by fzf itself',
                  'only well-formed SGR parameters from the documented set are generated for the colouring equality (no empty sub-parameters, no mixed ; and : separators)'],
     units=[
@@ -168,6 +170,7 @@ CHECKS['C11'] = dict(
         U('inpkg', 'TestVerifC11_Grammar', q(160000, 16), q(2400000, 16, cap=1800), pkg='src'),
         U('inpkg', 'FuzzVerifC11_Bytes', None, q(fuzz=120), pkg='src'),
         U('inpkg', 'FuzzVerifC11_Grammar', None, q(fuzz=90), pkg='src'),
+        U('proc', 'TestVerifC11_ProcColours', q(320, 16, cap=900), q(6400, 16, cap=3000), needs_fzf=True),
     ])
 
 CHECKS['C12'] = dict(
@@ -267,12 +270,13 @@ CHECKS['C13'] = dict(
     title='Loading and searching run concurrently without interfering',
     rule='(a) a loader goroutine appending 50-2500 items with generated yield points while 1-8 snapshots (with/without --tail) are taken and scanned (sorted) in 1-32 partitions with a shared cache, the number of matching lines (0-30 of 100) and their relevance varying from chunk to chunk: every snapshot is a contiguous frozen run of the input, '
          'its items never change, every search equals the sequential filter of its snapshot; (b) exhaustive: a superseding request injected (hook) after the k-th counted chunk for every k, lists of 1..6 (quick) / 1..12 (thorough) chunks, partitions {1,3,32}, 8 query pairs: '
-         'the superseded search publishes nothing, the published list is the filter of the superseding request; (c) EventBox hand-off with 1-3 producers. Thorough tier runs (a)-(c) under the Go race detector. '
+         'the superseded search publishes nothing, the published list is the filter of the superseding request; (c) EventBox hand-off with 1-3 producers; (d) the real loader (Reader.feed over scripted reads cutting records anywhere) filling the list while snapshots are taken and searched: snapshot contents equal the records and never change afterwards. Thorough tier runs (a)-(c) under the Go race detector. '
          'non-trivial = a snapshot taken while the last chunk was partially filled (a); a cancellation strictly inside the scan (b)',
     assumptions=['goroutine interleavings are sampled by the Go scheduler; only cancellation points are enumerated (DESIGN.md section 6)'],
     units=[
         U('inpkg', 'TestVerifC13_CancellationPoints', q(1, 16, cap=600), q(1, 16, cap=2400, race=True), pkg='src'),
         U('inpkg', 'TestVerifC13_LoadWhileSearching', q(1600, 16, cap=600), q(16000, 16, cap=2400, race=True), pkg='src'),
+        U('inpkg', 'TestVerifC13_FeedWhileSearching', q(3200, 16, cap=600), q(32000, 16, cap=2400, race=True), pkg='src'),
         U('inpkg', 'TestVerifC13_EventBox', q(3200, 8), q(32000, 16, cap=1800, race=True), pkg='util'),
     ])
 
